@@ -57,7 +57,7 @@ type Event struct {
 	Fact   string `json:"fact,omitempty"`
 	Values string `json:"values,omitempty"`
 	Limit  string `json:"limit,omitempty"`
-	Call   int    `json:"call"` // index into Case.Calls
+	Call   int    `json:"call"`            // index into Case.Calls
 	Count  int    `json:"count,omitempty"` // further occurrences of the same event (same prop, kind, line, fact) folded into this one
 }
 
